@@ -78,7 +78,42 @@ def reset_globals():
         cr.IGNORED_VALUES.clear()
 
 
+class _Captured(Exception):
+    pass
+
+
+def cli_defaults():
+    """defaults of every option outrank/__main__.py's parser defines (num_threads=8, ...); {} if the entry point changes shape"""
+    import argparse
+    try:
+        import outrank.__main__ as m
+        orig = argparse.ArgumentParser.parse_args
+
+        def grab(self, *a, **k):
+            raise _Captured(self)
+        argparse.ArgumentParser.parse_args = grab
+        try:
+            m.main()
+        except _Captured as c:
+            parser = c.args[0]
+        finally:
+            argparse.ArgumentParser.parse_args = orig
+        return {a.dest: a.default for a in parser._actions if a.dest != "help"}
+    except BaseException:
+        return {}
+
+
+CLI_DEFAULTS = cli_defaults()
+
+
 def base_args(case):
+    ns = types.SimpleNamespace(**CLI_DEFAULTS)
+    for k, v in vars(explicit_args(case)).items():
+        setattr(ns, k, v)
+    return ns
+
+
+def explicit_args(case):
     return types.SimpleNamespace(
         label_column=case.get("label", "label"),
         interaction_order=case.get("order", 1),
